@@ -562,6 +562,12 @@ class Evaluator:
                 return None
             v = self.binop(s.op, cur, rhs, s, fr)
             self.assign(s.target, v, fr)
+            # NumPy's augmented operators work in place: every other name / attribute / container slot of this frame that
+            # holds the *same array object* sees the new contents (i = XX; i += YY changes XX).  Python scalars, Times and
+            # explicit per-element arrays (which model their own stores) are excluded.
+            if isinstance(cur, Num) and isinstance(v, Num) and cur is not v and cur.kind != "time" \
+                    and (cur.shape or cur.tag == "data" or cur.kind == "array"):
+                self._rebind_aliases(fr, cur, v)
             return None
         if isinstance(s, ast.Return):
             return Outcome("return", self.eval(s.value, fr) if s.value is not None else NONE)
@@ -790,6 +796,38 @@ class Evaluator:
             self.setitem(obj, idx, v, fr, target)
         else:
             self.unsupported("assignment target", target, fr)
+
+    def _rebind_aliases(self, fr, old, new):
+        seen = set()
+
+        def walk(c):
+            if id(c) in seen:
+                return
+            seen.add(id(c))
+            if isinstance(c, ObjV):
+                for k, x in list(c.attrs.items()):
+                    if x is old:
+                        c.attrs[k] = new
+                        self.trace.append(("inplace-alias", k, old, new))
+                    else:
+                        walk(x)
+            elif isinstance(c, DictV):
+                for k, x in list(c.d.items()):
+                    if x is old:
+                        c.d[k] = new
+                    else:
+                        walk(x)
+            elif isinstance(c, (ListV, TupleV)):
+                for i, x in enumerate(list(c.items)):
+                    if x is old:
+                        c.items[i] = new
+                    else:
+                        walk(x)
+        for k, x in list(fr.env.items()):
+            if x is old:
+                fr.env[k] = new
+            else:
+                walk(x)
 
     def setattr(self, obj, name, v, fr, node=None):
         if isinstance(obj, ObjV):
